@@ -114,7 +114,8 @@ def expectedObserves : List (String × String × String × String) :=
    ("Component", "baseGlyph", "baseGlyphNameChangedNotificationCallback", "Glyph.NameChanged"),
    ("Component", "layer", "layerGlyphAddedNotificationCallback", "Layer.GlyphAdded"),
    ("Component", "layer", "layerGlyphNameChangedNotificationCallback", "Layer.GlyphNameChanged"),
-   ("Component", "layer", "layerGlyphWillBeDeletedNotificationCallback", "Layer.GlyphWillBeDeleted")]
+   ("Component", "layer", "layerGlyphWillBeDeletedNotificationCallback", "Layer.GlyphWillBeDeleted"),
+   ("Component", "layer", "layerGlyphDeletedNotificationCallback", "Layer.GlyphDeleted")]
 
 def glyphOutlineMethods : List String :=
   ["_contourChanged", "_componentChanged", "_componentBaseGlyphDataChanged", "insertContour",
@@ -122,7 +123,7 @@ def glyphOutlineMethods : List String :=
 
 def compCallbacks : List String :=
   ["baseGlyphDataChangedNotificationCallback", "baseGlyphNameChangedNotificationCallback",
-   "layerGlyphNameChangedNotificationCallback", "layerGlyphWillBeDeletedNotificationCallback",
+   "layerGlyphNameChangedNotificationCallback", "layerGlyphDeletedNotificationCallback",
    "layerGlyphAddedNotificationCallback"]
 
 /-- the individual coverage obligations -/
@@ -142,6 +143,7 @@ def covList (T : Tables) : List Bool :=
    groupsMutators.all (fun m => hitsAll T "Groups" (T.postsOf "Groups" m)),
    expectedObserves.all (fun e => T.observes.contains e),
    (T.postsOf "Layer" "__delitem__").contains "Layer.GlyphWillBeDeleted",
+   (T.postsOf "Layer" "__delitem__").contains "Layer.GlyphDeleted",
    (T.postsOf "Layer" "newGlyph").contains "Layer.GlyphAdded",
    (T.postsOf "Layer" "_glyphNameChange").contains "Layer.GlyphNameChanged",
    (T.postsOf "Glyph" "_set_name").contains "Glyph.NameChanged"]
